@@ -42,8 +42,8 @@ static std::string Hdig(const std::string &pay) {        // H(m) as the library 
 }
 static const char *ACTN[] = {"a0", "send", "echo", "ready", "request", "answer", "retrieve", "ldeliver", "lfail", "a9"};
 
-struct Msg { Tup f; int from = 0, to = 0; bool byz = false; long act = -1; };
-struct Ev { char k; int a, b; int mi; long x; std::string v; };
+struct WMsg { Tup f; int from = 0, to = 0; bool byz = false; long act = -1; };
+struct WEv { char k; int a, b; int mi; long x; std::string v; };
 // k: 'S' honest send a->b msg mi | 'I' injected a->b | 'H' handed over a->b (x: api mode -1 Deliver, i DeliverFrom(i))
 //    'A' api at a: x = op code ('S','R','U','B'), b = ctx, v = payload for B
 //    'D' delivery at a: b = sender, x = via (0 Deliver, 1 DeliverFrom, 2 buffered inside DeliverFrom), mi = ctx of party, v = value
@@ -79,9 +79,9 @@ struct Viol { std::string key, what; size_t at; };
 struct Run {
 	Cfg cfg; int n, t; Rng srng, arng;      // scheduler / adversary streams
 	std::vector<StepUnicast *> uni; std::vector<CachinKursawePetzoldShoupRBC *> rbc; std::vector<Rng> prng;
-	std::vector<Msg> msgs; std::vector<std::vector<std::deque<int>>> q; long inflight = 0;
+	std::vector<WMsg> msgs; std::vector<std::vector<std::deque<int>>> q; long inflight = 0;
 	std::vector<int> handed, handed_from; std::vector<char> consumed; int consumed_mi = -1;
-	std::vector<Ev> ev; std::vector<Viol> viols; std::set<std::string> vkeys;
+	std::vector<WEv> ev; std::vector<Viol> viols; std::set<std::string> vkeys;
 	std::vector<size_t> pc; std::vector<std::vector<int>> stack;   // program counter, ctx stack per party
 	uint64_t shash = 1469598103934665603ULL; long steps = 0, handovers = 0;
 	int cur_sender = -1; std::string cur_bpay; int cur_bsent = 0;     // Broadcast in progress
@@ -125,7 +125,7 @@ struct Run {
 
 	// ------------------------------------------------------------ wire
 	int add_msg(const Tup &f, int from, int to, bool byzmade) {
-		Msg m; m.f = f; m.from = from; m.to = to; m.byz = byzmade;
+		WMsg m; m.f = f; m.from = from; m.to = to; m.byz = byzmade;
 		m.act = (f[3].size() <= 2 && !f[3].empty() && f[3][0] != '-') ? atol(f[3].c_str()) : -1;
 		msgs.push_back(m); return (int)msgs.size() - 1;
 	}
@@ -145,7 +145,7 @@ struct Run {
 
 	// ------------------------------------------------------------ monitors
 	void on_deliver(int p, int via, size_t who, const std::string &val);
-	void on_handed(int p, int from, const Msg &m) {         // boundary bookkeeping for the echo/ready discipline
+	void on_handed(int p, int from, const WMsg &m) {         // boundary bookkeeping for the echo/ready discipline
 		if (m.act < 1 || m.act > 3) return;
 		TagSt &ts = tst[p][tagkey(m.f)];
 		if (m.act == 1) { if (m.f[1] == std::to_string(from)) ts.rsend_pay.insert(m.f[4]); }
@@ -196,7 +196,7 @@ bool StepUnicast::Send(const std::vector<mpz_srcptr> &m, const size_t i_in, cons
 bool StepUnicast::Receive(std::vector<mpz_ptr> &m, size_t &i_out, const size_t, const time_t) {
 	int mi = R->handed[j];
 	if (mi < 0 || R->consumed[j] || m.size() != 5) { i_out = n; return false; }
-	const Msg &ms = R->msgs[mi];
+	const WMsg &ms = R->msgs[mi];
 	for (int k = 0; k < 5; k++) mpz_set_str(m[k], ms.f[k].c_str(), 10);
 	i_out = (size_t)R->handed_from[j]; R->consumed[j] = 1; R->consumed_mi = mi;
 	R->ev.push_back({'H', R->handed_from[j], (int)j, mi, 0, ""});
@@ -458,7 +458,7 @@ void Run::adv_move() {
 		for (int x : subset((int)arng.below(4))) inject(b, x, g);
 		break; }
 	default: {
-		const Msg &m0 = msgs[arng.below(msgs.size())];
+		const WMsg &m0 = msgs[arng.below(msgs.size())];
 		g = m0.f; int x = (m0.byz && arng.coin() && !cfg.byz[m0.to]) ? m0.to : honest_ids[arng.below(honest_ids.size())];
 		inject(b, x, g); if (arng.below(4) == 0) inject(b, x, g);
 		break; }
@@ -528,9 +528,9 @@ static std::string fmt_val(const std::string &v) {
 std::string Run::trace_json(size_t from, size_t to) const {
 	std::vector<std::string> out;
 	for (size_t i = from; i < to && i < ev.size(); i++) {
-		const Ev &e = ev[i]; std::string s = std::to_string(i) + " ";
+		const WEv &e = ev[i]; std::string s = std::to_string(i) + " ";
 		if (e.k == 'S' || e.k == 'I' || e.k == 'H') {
-			const Msg &m = msgs[e.mi]; int c = ctx_of_id(m.f[0]);
+			const WMsg &m = msgs[e.mi]; int c = ctx_of_id(m.f[0]);
 			s += (e.k == 'S' ? "sent " : e.k == 'I' ? "BYZ-inject " : "HANDOVER ") + std::to_string(e.a) + ">" + std::to_string(e.b) + " [" + (c >= 0 ? "ch" + std::to_string(c) : fmt_val(m.f[0])) + " j=" + shorten(m.f[1], 12) + " s=" + (m.f[2].size() > 9 ? "#" + m.f[2].substr(0, 6) : m.f[2]) + " " + ((m.act >= 0 && m.act <= 9) ? ACTN[m.act] : shorten(m.f[3], 10).c_str()) + " " + fmt_val(m.f[4]) + "]";
 		} else if (e.k == 'A') { s += "API p" + std::to_string(e.a) + " " + (e.x == 'S' ? "setID" : e.x == 'R' ? "recoverID" : e.x == 'U' ? "unsetID->" : "Broadcast on") + " ch" + std::to_string(e.b) + (e.v.empty() ? "" : " " + fmt_val(e.v)); }
 		else if (e.k == 'D') { static const char *VIA[] = {"Deliver", "DeliverFrom", "DeliverFrom-buffer"}; s += "DELIVER p" + std::to_string(e.a) + " via " + VIA[e.x] + " sender=" + std::to_string(e.b) + " " + fmt_val(e.v) + " party-on ch" + std::to_string(e.mi); }
@@ -550,9 +550,9 @@ std::string Run::cfg_json() const {
 	return j.str();
 }
 std::string Run::rec_json() const {
-	std::string ms = "["; for (size_t i = 0; i < msgs.size(); i++) { const Msg &m = msgs[i]; if (i) ms += ","; int c = ctx_of_id(m.f[0]);
+	std::string ms = "["; for (size_t i = 0; i < msgs.size(); i++) { const WMsg &m = msgs[i]; if (i) ms += ","; int c = ctx_of_id(m.f[0]);
 		ms += "[\"" + (c >= 0 ? "c" + std::to_string(c) : m.f[0]) + "\",\"" + m.f[1] + "\",\"" + m.f[2] + "\",\"" + m.f[3] + "\",\"" + m.f[4] + "\"]"; } ms += "]";
-	std::string es = "["; for (size_t i = 0; i < ev.size(); i++) { const Ev &e = ev[i]; if (i) es += ",";
+	std::string es = "["; for (size_t i = 0; i < ev.size(); i++) { const WEv &e = ev[i]; if (i) es += ",";
 		es += std::string("[\"") + e.k + "\"," + std::to_string(e.a) + "," + std::to_string(e.b) + "," + std::to_string(e.mi) + "," + std::to_string(e.x) + ",\"" + e.v + "\"]"; } es += "]";
 	std::vector<std::string> ks; for (auto &v : viols) ks.push_back(v.key);
 	return J().kv("k", "run").raw("cfg", cfg_json()).kv("quiescent", quiescent && !capped).raw("msgs", ms).raw("ev", es).arr("cxx", ks).str();
